@@ -1145,7 +1145,14 @@ fn converted_text_cases(opts: &MatchOpts, rep: &mut Report) {
 /// every entry point is done after a few vectorised scans): every entry point returns what the same text cut to 64 bytes gives.
 fn max_length_haystack(opts: &MatchOpts, props: &Props, rep: &mut Report) {
     let n = u32::MAX as usize;
-    let mut bytes = vec![b'x'; n];
+    // (a machine without 4 GiB to spare leaves the case out - the coverage requirement then reports the check as inconclusive -
+    // instead of dying in the allocator)
+    let mut bytes: Vec<u8> = Vec::new();
+    if crate::m_layout::mem_available_gib() < 8 || bytes.try_reserve_exact(n).is_err() {
+        rep.count("c01.max-length-haystack-skipped-for-lack-of-memory");
+        return;
+    }
+    bytes.resize(n, b'x');
     bytes[0] = b'a';
     bytes[1] = b'b';
     bytes[3] = b'A';
